@@ -1008,10 +1008,7 @@ func (index *fkDeleteCascadeConstraint) ProcessAfterUpdate(*IndexingContext) {
 
 func (index *fkDeleteCascadeConstraint) ProcessBeforeDelete(ctx *IndexingContext) {
 	if !ctx.ErrHolder.HasError() {
-		filter, err := ast.Parse(index.symbol.GetStore(), fmt.Sprintf(`%v = "%v"`, index.symbol.GetName(), string(ctx.RowId)))
-		if ctx.ErrHolder.SetError(err) {
-			return
-		}
+		filter := &fkReferrerFilter{symbol: index.symbol.GetName(), id: string(ctx.RowId)}
 
 		targetStore := index.symbol.GetStore()
 
@@ -1041,6 +1038,33 @@ func (index *fkDeleteCascadeConstraint) ProcessBeforeDelete(ctx *IndexingContext
 			}
 		}
 	}
+}
+
+// fkReferrerFilter matches the entities whose fk symbol holds the given id. The stored value is
+// compared directly, so the id never passes through the filter language: ids may contain quotes,
+// backslashes or filter keywords.
+type fkReferrerFilter struct {
+	symbol string
+	id     string
+}
+
+func (f *fkReferrerFilter) String() string {
+	return fmt.Sprintf("%v = %q", f.symbol, f.id)
+}
+
+func (f *fkReferrerFilter) GetType() ast.NodeType {
+	return ast.NodeTypeBool
+}
+
+func (f *fkReferrerFilter) Accept(ast.Visitor) {}
+
+func (f *fkReferrerFilter) IsConst() bool {
+	return false
+}
+
+func (f *fkReferrerFilter) EvalBool(s ast.Symbols) bool {
+	val := s.EvalString(f.symbol)
+	return val != nil && *val == f.id
 }
 
 func (index *fkDeleteCascadeConstraint) Initialize(*bbolt.Tx, errorz.ErrorHolder) {
